@@ -17,7 +17,9 @@ RULE = (
     "re-completes its own state, (done.invoke) a done.invoke loop through a synchronous service, (nested) a self-"
     "enqueueing pure/choose/enqueueActions expansion - with natural length L drawn below / at / above maxIterations "
     "in [3,25] or infinite, triggered at start() or by an event, on both engines; plus bursts of N > maxIterations "
-    "external events through send() and send_events(). Oracle (step counts, not wall clock): one start()/send() executing "
+    "external events through send() and send_events(), and (sustained) a producer landing one external event inside each "
+    "of more than maxIterations consecutive suspended macrosteps (C04 harness, exactly-once law); the raise template also "
+    "comes in a `quiet` variant whose chain is interleaved with events nobody feeds on. Oracle (step counts, not wall clock): one start()/send() executing "
     "more than 50 x maxIterations transitions/events is non-termination; the async run loop must not process more than "
     "maxIterations+2 queued events inside one event-loop iteration (recorded per on_event_received); after a cut the "
     "configuration is legal and a fresh PING event is handled; a chain with L <= maxIterations runs exactly L steps and "
@@ -39,13 +41,13 @@ def plan(tier):
 
 def strategy(tier, campaign):
     return st.fixed_dictionaries({
-        "kind": st.sampled_from(KINDS + ["burst"]),
+        "kind": st.sampled_from(KINDS + ["burst", "sustained"]),
         "engine": st.sampled_from(["sync", "async"]),
         "maxit": st.integers(3, 25),
         "rel": st.sampled_from(["below", "just-below", "at", "above", "far-above", "inf"]),
         "trigger": st.sampled_from(["start", "event"]),
         "cycle": st.integers(1, 4),
-        "fanout": st.sampled_from([1, 1, 2]),
+        "fanout": st.sampled_from([1, 1, 2, "quiet"]),
         "via": st.sampled_from(["pure", "enqueue", "choose"]),
         "burst_api": st.sampled_from(["send", "send_events"]),
         "burst_extra": st.integers(1, 20),
@@ -79,8 +81,15 @@ def build_spec(case):
         entry = ["s0"]
     elif kind == "raise":
         n = case["fanout"]
+        if n == "quiet":
+            # the chain is interleaved with events nobody feeds on: E raises E and NOTE
+            raised = [{"k": "raise", "event": "E"}, {"k": "raise", "event": "NOTE"}]
+        else:
+            raised = [{"k": "raise", "event": "E"}] * n
         w = {"key": "w", "kind": "atomic", "on": [["E", [{"target": None, "actions": [INC, {"k": "choose", "branches": [
-            {"guard": _g(ell), "actions": [{"k": "raise", "event": "E"}] * n}]}]}]]]}
+            {"guard": _g(ell), "actions": raised}]}]}]]]}
+        if n == "quiet" and case["cycle"] % 2 == 0:
+            w["on"].append(["NOTE", [{"target": None, "actions": []}]])   # handled, but raises nothing
         if trig == "start":
             w["entry"] = [{"k": "raise", "event": "E"}]
         root["children"].append(w)
@@ -136,6 +145,9 @@ def _natural_n(case, ell):
     """Final counter value of a finite chain, or None when the total work exceeds the bound."""
     if case["kind"] != "raise" or case["fanout"] == 1:
         return ell
+    if case["fanout"] == "quiet":
+        # E is processed ell times, NOTE ell-1 times: 2*ell-1 queued events in one drain
+        return ell if 2 * ell - 1 <= case["maxit"] - 1 else None
     pending, n, total = 1, 0, 0
     while pending:
         pending -= 1
@@ -148,7 +160,44 @@ def _natural_n(case, ell):
     return n
 
 
+def _check_sustained(case) -> CaseResult:
+    """External events under sustained load: the handler of TICK suspends (a slow action) and a
+    concurrent producer lands one more TICK during every suspended macrostep, for more than
+    maxIterations consecutive macrosteps. Nothing is self-fed, so the bound must not touch them.
+    Runs on the C04 harness (producers next to the engine), judged by its exactly-once law."""
+    from . import c04
+
+    res = CaseResult()
+    engine, m = case["engine"], min(case["maxit"], 8)
+    n = m + case["burst_extra"]
+    w = {"key": "w", "kind": "atomic", "on": [["TICK", [{"target": None, "actions": [{"k": "user", "name": "slow"}, INC]}]],
+                                              ["PING", [{"target": None, "actions": []}]]]}
+    spec = {"id": "m", "root": {"key": "m", "kind": "compound", "initial": "w", "children": [w]}, "context": {"n": 0},
+            "maxIterations": m, "tables": {}, "services": {}, "impls": {"slow": {"k": "slow", "ms": 20}}}
+    finalize(spec)
+    # first TICK at t=0, then one every 20 ms shifted by 10 ms: each lands in the middle of a slow action
+    prod = [[0, "TICK", "send"]] + [[10 if i == 0 else 20, "TICK", "send"] for i in range(n - 1)]
+    c4 = {"spec": spec, "producers": [prod, [[5, "PING", "send"]]], "engine": engine, "choices": [], "tail": 200 + 20 * n}
+    r = c04.check_case(c4)
+    res.sample = {"case": case, "sent": n, "maxIterations": m}
+    res.classes.append("sustained")
+    res.nontrivial = True
+    res.nontrivial_keys = [case_fp(["sustained", engine, m, n])]
+    res.inconclusive = r.inconclusive
+    if r.inconclusive == "cut-or-bound":
+        # C04 gives the engine the benefit of the doubt when events went missing in a run long
+        # enough to have hit a self-feeding bound; this template has no self-fed event at all
+        res.inconclusive = None
+        res.violate(f"{engine}|external-events-under-sustained-load|event-lost", {"sent": n, "maxIterations": m})
+    for tag, detail in r.violations:
+        law = tag.split("|")[1]
+        res.violate(f"{engine}|external-events-under-sustained-load|{law}", dict(detail, sent=n, maxIterations=m))
+    return res
+
+
 def check_case(case) -> CaseResult:
+    if case["kind"] == "sustained":
+        return _check_sustained(case)
     res = CaseResult()
     spec = build_spec(case)
     hist = history_of(case)
